@@ -1665,9 +1665,10 @@ def check_cases(run, cases, record=True):
                 run.mismatch(case, model[k], flat_impl(res))
 
 
-# mapped basins of unverified kinds without basinmap feature: only on a
-# tree with the fix C14-basinmap-lookup-reentrant
-NO_BASINMAP_FILE_ONLY = True
+# mapped basins of unverified kinds without basinmap feature need the fix
+# c5ad7bc (C14-basinmap-lookup-reentrant); True restricts the generator to
+# basins that are verified when the definitions are retrieved
+NO_BASINMAP_FILE_ONLY = False
 
 
 def run(run):
@@ -1690,9 +1691,9 @@ def run(run):
         if c["exotic"] == "no-basins":
             c["root"]["fmt"] = "hdf5"
         if c["exotic"] == "no-basinmap":
-            # local only: over the network every level of the RecursionError
-            # path opens the basin anew (minutes per access; it ends)
-            c["root"]["fmt"] = "hdf5"
+            # (a DCOR root cannot hold mapped basins at all)
+            if c["root"]["fmt"] != "http" or NO_BASINMAP_FILE_ONLY:
+                c["root"]["fmt"] = "hdf5"
             for f in c["files"]:
                 f.pop("dcor", None)
                 if NO_BASINMAP_FILE_ONLY and f["ridmode"] == "none":
